@@ -321,6 +321,17 @@ def run(ctx):
     outs = [A.peel(e) for b, e in rets]
     ctx.check(all(o[0] == "call" and o[1] == ZS + "serialise_octets" and A.peel(o[2][1])[2] is False for o in outs) and bool(outs), "C13.5", "serialise_domain:escaped",
               "names are rendered through serialise_octets(.., unquoted)", "names bypass the escaping", sd.loc())
+    # every caller decides `quoted` with a literal: true only for the character-string / opaque RDATA fields (which are
+    # written inside quotes), false for every name (a name is never quoted, so a space in it must be escaped)
+    for fn_, b_, t_ in A.who_calls(prog, ZS + "serialise_octets"):
+        ce = A.Resolver(fn_).call_expr(t_, b_)
+        q = A.peel(ce[2][1])
+        what = A.last_field(A.peel_until_call(ce[2][0], "nothing")) if True else None
+        is_octets_field = A.last_field(ce[2][0]) == "octets" or (A.path_str(ce[2][0]) or "").endswith(".octets")
+        ok = q[0] == "const" and ((q[2] is True and is_octets_field) or (q[2] is False and not is_octets_field))
+        ctx.check(ok, "C13.5", "serialise_octets:quoted@%s:%s" % (A.short(fn_.key), "octets" if is_octets_field else "name"),
+                  "quoted rendering for RDATA octet strings only; names are rendered unquoted (spaces escaped)",
+                  "serialise_octets(%s, quoted = %s)" % (A.show(ce[2][0])[:60], A.show(q)), fn_.loc(b_))
     # wildcard lines: "*." + same rendering
     star = []
     for b, t in zs.calls():
